@@ -305,7 +305,15 @@ class ModelH:
         dup_classes = [(m, ids) for m, ids in classes.items() if len(ids) > 1]
         if rename not in ("first", "tuple", "new") or merge_rule not in ("first", "union", "intersection"):
             if dup_classes:
-                raise ModelError("lib")
+                unorderable = False
+                for _, ids in dup_classes:
+                    try:
+                        sorted(ids)
+                    except TypeError:
+                        unorderable = True
+                # invalid argument -> the library's error; but when the duplicate IDs cannot be sorted either, the
+                # docs do not say which of the two problems is reported first
+                raise ModelError("any" if unorderable else "lib")
             return  # nothing to merge: the docs do not say whether the arguments are validated anyway
         if merge_rule == "union":
             self.warn_expected = True
